@@ -66,7 +66,8 @@ func NewSingleSymmetricKeySealer() (Sealer, error) {
 
 func (s singleSymmetricKeySealer) Seal(u *url.URL) (*url.URL, error) {
 	requestURI := (&url.URL{
-		Path:     u.EscapedPath(),
+		Path:     u.Path,
+		RawPath:  u.RawPath,
 		RawQuery: u.RawQuery,
 	}).String()
 	nbf := time.Now().Add(-10 * time.Second)
@@ -93,7 +94,8 @@ func (s singleSymmetricKeySealer) Seal(u *url.URL) (*url.URL, error) {
 	reqStr := base64.RawURLEncoding.EncodeToString(reqBytes)
 
 	ret := *u
-	ret.Path = "/single_symmetric_key_sealed_request/" + u.EscapedPath()
+	ret.Path = "/single_symmetric_key_sealed_request/" + u.Path
+	ret.RawPath = "/single_symmetric_key_sealed_request/" + u.EscapedPath()
 	ret.RawQuery = url.Values(map[string][]string{
 		"req":   []string{reqStr},
 		"nbf":   []string{strconv.FormatInt(nbf.UnixMilli(), 10)},
@@ -168,12 +170,13 @@ func (s singleSymmetricKeySealer) Unseal(u *url.URL) (*url.URL, error) {
 		return nil, fmt.Errorf("bad request: error parsing unsealed request uri: %w", err)
 	}
 
-	if strings.TrimPrefix(u.Path, "/single_symmetric_key_sealed_request/") != requestURL.EscapedPath() {
+	if strings.TrimPrefix(u.Path, "/single_symmetric_key_sealed_request/") != requestURL.Path {
 		return nil, fmt.Errorf("bad request: unsealed request path did not equal request path in sealed request")
 	}
 
 	ret := *u
 	ret.Path = requestURL.Path
+	ret.RawPath = requestURL.RawPath
 	ret.RawQuery = requestURL.RawQuery
 	return &ret, nil
 }
